@@ -55,7 +55,7 @@ def shards(tier):
 def floors(tier):
     scale = 1 if tier == 'quick' else 10
     return {'evaluations': 40 * scale, 'actions_train': 12 * scale, 'actions_apply': 10 * scale,
-            'actions_serve': 6 * scale, 'actions_perftrack': 6 * scale, 'retrain_checked': 5 * scale,
+            'actions_serve': 6 * scale, 'actions_perftrack': 6 * scale, 'retrain_checked': 5 * scale, 'raced_actions': 2 * scale,
             'older_generation_checked': 4 * scale, 'states_compared': 30 * scale}
 
 
@@ -98,7 +98,7 @@ def directed():
 
 
 HISTORIES = [
-    ['train', 'apply', 'serve', 'perftrack', 'train', 'apply', 'apply@1', 'perftrack'],
+    ['train', 'apply', 'serve~race', 'perftrack', 'train', 'apply~race', 'apply@1', 'perftrack'],
     ['train', 'train', 'serve', 'apply@1', 'perftrack@1', 'train', 'apply', 'serve'],
     ['train', 'perftrack', 'apply', 'train', 'perftrack', 'serve', 'apply@1'],
 ]
@@ -139,6 +139,7 @@ def run_history(ctx, label, expr, history, schedule, index):
         persisted_before: dict[int, list] = {}
         for step, action in enumerate(history):
             kind, _, explicit = action.partition('@')
+            kind, _, race = kind.partition('~')
             generation = int(explicit) if explicit else None
             if kind != 'train' and not model:
                 continue
@@ -149,9 +150,18 @@ def run_history(ctx, label, expr, history, schedule, index):
             job = {'registry': registry, 'project': 'p', 'release': '1', 'generation': generation, 'action': kind,
                    'nonce': nonce, 'out': os.path.join(workdir, f'{step}.json'), 'gc': schedule,
                    'hashseed': core.subseed(ctx.seed, index, step) % 1000, 'entries': [[1000 * index + step]]}
+            racer = None
+            if race and model:
+                # another process trains and commits right after this action's first state read
+                racer = {'registry': registry, 'project': 'p', 'release': '1', 'generation': None, 'action': 'train',
+                         'nonce': f'R{index}x{step}', 'out': os.path.join(workdir, f'{step}r.json'), 'gc': 'default'}
+                with open(racer['out'] + '.job', 'w', encoding='utf-8') as fd:
+                    json.dump(racer, fd)
+                job['race'] = racer['out'] + '.job'
+                ctx.count('raced_actions')
             ctx.count('evaluations')
             ctx.count(f'actions_{kind}')
-            ctx.shape((sig, kind, 'explicit' if explicit else 'latest', len(model), schedule))
+            ctx.shape((sig, kind, 'explicit' if explicit else 'latest', len(model), schedule, bool(racer)))
             result = spawn(job, workdir, core.REPO)
             if result.get('timeout'):
                 ctx.inconclusive(f'{kind} timed out after {ACTION_TIMEOUT}s ({label})')
@@ -207,17 +217,34 @@ def run_history(ctx, label, expr, history, schedule, index):
                 continue
             if explicit:
                 ctx.count('older_generation_checked')
-            if kind == 'apply':
-                expected = exprgen.apply_with(expr, model[target], xa)
-                observed = [lifecycle.decode(b) for b in result['sink']]
-            elif kind == 'serve':
-                expected = exprgen.apply_with(expr, model[target], lifecycle.entry_term(job['entries'][0]))
-                observed = [lifecycle.decode(b) for b in result['served']]
-            else:
-                expected = Term('metric', y, exprgen.apply_with(expr, model[target], x))
-                observed = [lifecycle.decode(b) for b in result['sink']]
+            alternatives = [target]
+            if racer:
+                # the racing training (from the latest generation) committed target+1 while this action was loading states
+                rx, ry, rxa = lifecycle.source_terms(racer['nonce'])
+                last = max(model)
+                prev = {}
+                for f in model[last]:
+                    if f.op == 'fit' and f.args[0] in persistent:
+                        prev.setdefault(f.args[0], []).append(f)
+                model[last + 1] = list(exprgen.denote(expr, rx, ry, rxa, prev=prev).fits)
+                if not explicit:
+                    alternatives.append(last + 1)  # either generation is fine - but all states from the same one
+            def expect(generation):
+                if kind == 'apply':
+                    return exprgen.apply_with(expr, model[generation], xa)
+                if kind == 'serve':
+                    return exprgen.apply_with(expr, model[generation], lifecycle.entry_term(job['entries'][0]))
+                return Term('metric', y, exprgen.apply_with(expr, model[generation], x))
+            observed = [lifecycle.decode(b) for b in (result['served'] if kind == 'serve' else result['sink'])]
+            expected = expect(target)
+            if racer and observed != [expected] and len(alternatives) > 1 and observed == [expect(alternatives[1])]:
+                expected = expect(alternatives[1])
+            if racer:
+                persisted_before[max(model)] = gens.get(max(model))
             if observed != [expected]:
                 key = f'{kind}-state-binding'
+                if racer:
+                    key = f'{kind}-states-from-mixed-generations-under-concurrent-training'
                 if kind == 'perftrack' and head_bound:
                     key = 'perftrack-head-trainer-unbound'
                 elif observed and _strip_states(observed[0]) != _strip_states(expected):
